@@ -1206,6 +1206,28 @@ static void run_hist(int tier, const int *ops, int n, vf_result *r)
 	goto done;
     model_key(&m, r, n >= maxdepth(tier));
 
+    /*
+     * copy probe: a same-type conversion into a second object (one that
+     * held something else) presents the same array through every getter:
+     * "conversions interleaved" includes those that leave this object
+     * alone and fill another
+     */
+    {
+	vnadata_t *out = vnadata_alloc((vnaerr_error_fn_t *)vf_errfn, &L);
+	if (out != NULL && vnadata_init(out, VPT_S, 2, 2, 1) == 0 &&
+		vnadata_set_z0(out, 1, 17.0 - 3.0 * I) == 0) {
+	    BEGIN();
+	    int rc = vnadata_convert(vdp, out,
+		    (vnadata_parameter_type_t)m.type);
+	    if (want_success(r, "copy-", "vnadata_convert", rc != 0,
+			"into a second object, same type"))
+		observe(out, &m, r, "copy-", 0);
+	}
+	vnadata_free(out);
+	if (r->status == VF_VIOL)
+	    goto done;
+    }
+
     /* regrow probe: expose everything beyond the logical size */
     {
 	model_t g = m;
@@ -1238,7 +1260,8 @@ vf_driver vf_drv = {
 	"n-1,n,n+1}, in-place conversions), replayed on a fresh object and "
 	"on the array model; after the last operation the return value, "
 	"errno, error-callback log, every getter at every index from -1 to "
-	"n+1 and a regrow-to-4x4x8 read-out are compared.  A history is "
+	"n+1, a same-type copy into a second object read through every "
+	"getter, and a regrow-to-4x4x8 read-out are compared.  A history is "
 	"non-trivial when its last operation succeeded or was refused on a "
 	"non-empty object; 'transitions' counts compared library calls; at "
 	"the last depth the state key is coarsened to (type, dimensions, "
